@@ -259,7 +259,11 @@ func (sm *SRGStateMachine) PeerHeartbeatUpdate(peerPriority uint32, peerNodeID s
 		return sm.transitionTo(SRGStateActive)
 	}
 
-	if sm.state == SRGStateActive && peerState == SRGStateActive && !sm.winsElection(peerNodeID) {
+	// ACTIVE_SOLO counts as active too: the peer re-elects on our next
+	// heartbeat, and if we did not yield here the pair would stay
+	// dual-active until the heartbeat after that.
+	peerActive := peerState == SRGStateActive || peerState == SRGStateActiveSolo
+	if sm.state == SRGStateActive && peerActive && !sm.winsElection(peerNodeID) {
 		return sm.transitionTo(SRGStateStandby)
 	}
 
